@@ -318,8 +318,12 @@ same_dims(const struct ImageShape& a, const struct ImageShape& b)
            memcmp(&a.strides, &b.strides, sizeof(a.strides)) == 0;
 }
 
-// expected f32 mean of pixel p over window frames
-static void
+// expected f32 mean of pixel p over window frames; true = a foreign oracle
+// fired (the caller skips the rest of its judgement)
+static bool
+judge_fail(const char* id, const char* fmt, ...)
+  __attribute__((format(printf, 2, 3)));
+static bool
 check_mean_frame(const struct VideoFrame* f, int camdev, int acq,
                  const std::vector<FrameRec>& G, size_t first, int k,
                  const char* where, const char* oracle_prefix)
@@ -365,15 +369,17 @@ check_mean_frame(const struct VideoFrame* f, int camdev, int acq,
         hi = nextafterf(hi, INFINITY);
         if (!(out[p] >= lo && out[p] <= hi)) {
             std::string id = std::string(oracle_prefix) + ".wrong_mean";
-            oracle_fail(id.c_str(),
-                        "%s: averaged frame id %llu pixel %zu is %.9g but the "
-                        "mean of the %d input frames (hardware ids %llu..) is "
-                        "%.9g",
-                        where, (unsigned long long)f->frame_id, p,
-                        (double)out[p], k,
-                        (unsigned long long)G[first].hw, (double)want);
+            if (judge_fail(id.c_str(),
+                           "%s: averaged frame id %llu pixel %zu is %.9g but "
+                           "the mean of the %d input frames (hardware ids "
+                           "%llu..) is %.9g",
+                           where, (unsigned long long)f->frame_id, p,
+                           (double)out[p], k, (unsigned long long)G[first].hw,
+                           (double)want))
+                return true;
         }
     }
+    return false;
 }
 
 // ------------------------------------------------------------ mock hooks
@@ -635,10 +641,31 @@ delivered_frames(int camdev, int acq)
 // later fault-free acquisition is complete and correct") the same judgement
 // is a clause of the property being checked, so it is reported under that
 // property's name.
-static void
+// Returns only when the oracle belongs to another property than the one being
+// checked: the observation is counted (other.<id>) and the caller skips the
+// rest of THAT judgement, but the run goes on, so that a foreign oracle never
+// ends a run before the active property's own oracles have looked.
+static bool
+soft_fail(const char* id, const char* fmt, ...)
+  __attribute__((format(printf, 2, 3)));
+static bool
+soft_fail(const char* id, const char* fmt, ...)
+{
+    char buf[2048];
+    va_list ap;
+    va_start(ap, fmt);
+    vsnprintf(buf, sizeof(buf), fmt, ap);
+    va_end(ap);
+    if (oracle_gates(id))
+        oracle_fail(id, "%s", buf); // does not return
+    probe((std::string("other.") + id).c_str());
+    return true;
+}
+
+static bool
 judge_fail(const char* id, const char* fmt, ...)
   __attribute__((format(printf, 2, 3)));
-static void
+static bool
 judge_fail(const char* id, const char* fmt, ...)
 {
     char buf[2048];
@@ -651,8 +678,18 @@ judge_fail(const char* id, const char* fmt, ...)
     if ((ap_ == "C07" || ap_ == "C09") &&
         (oid.rfind("C04.", 0) == 0 || oid.rfind("C10.", 0) == 0))
         oid = ap_ + oid.substr(3);
-    oracle_fail(oid.c_str(), "%s", buf);
+    return soft_fail(oid.c_str(), "%s", buf);
 }
+#define JUDGE(...)                                                             \
+    do {                                                                       \
+        if (judge_fail(__VA_ARGS__))                                           \
+            return;                                                            \
+    } while (0)
+#define SOFT(...)                                                              \
+    do {                                                                       \
+        if (soft_fail(__VA_ARGS__))                                            \
+            return;                                                            \
+    } while (0)
 
 // A stream that the last acquire_configure de-selected (no camera, no
 // storage) takes no part in the acquisition: the devices it used before stay
@@ -681,8 +718,9 @@ judge_deselected(const AcqRec& a)
         if (oracle_gates("C08.deselected_stream_started"))
             oracle_fail("C08.deselected_stream_started", fmt, a.id, s,
                         st_started ? "storage" : "camera");
-        judge_fail("C04.deselected_stream_started", fmt, a.id, s,
-                   st_started ? "storage" : "camera");
+        if (judge_fail("C04.deselected_stream_started", fmt, a.id, s,
+                       st_started ? "storage" : "camera"))
+            continue;
     }
 }
 
@@ -699,7 +737,7 @@ judge_stream(const AcqRec& a, int s)
         storage_started |= x == a.id;
     if (!storage_started) {
         if (a.start_ok && !c.faulty() && !a.disturbed)
-            judge_fail("C04.stream_not_started",
+            JUDGE("C04.stream_not_started",
                         "acquisition %d stream %d: acquire_start succeeded but "
                         "the storage device never saw start()",
                         a.id, s);
@@ -729,19 +767,19 @@ judge_stream(const AcqRec& a, int s)
         size_t complete = G.size() / (size_t)k;
         if (clean) {
             if (G.size() != c.n)
-                judge_fail("C10.camera_frame_count",
+                JUDGE("C10.camera_frame_count",
                             "acquisition %d stream %d: camera delivered %zu "
                             "frames for max_frame_count=%llu",
                             a.id, s, G.size(), (unsigned long long)c.n);
             if (F.size() < complete || F.size() > complete + 1)
-                judge_fail("C10.window_count",
+                JUDGE("C10.window_count",
                             "acquisition %d stream %d: storage received %zu "
                             "averaged frames for %zu input frames with window "
                             "%d (expected %zu complete windows, at most one "
                             "extra)",
                             a.id, s, F.size(), G.size(), k, complete);
         } else if (F.size() > complete + 1) {
-            judge_fail("C10.window_count",
+            JUDGE("C10.window_count",
                         "acquisition %d stream %d: storage received %zu "
                         "averaged frames but only %zu inputs were delivered",
                         a.id, s, F.size(), G.size());
@@ -753,25 +791,26 @@ judge_stream(const AcqRec& a, int s)
                      "acquisition %d stream %d stored frame %zu", a.id, s, i);
             if (f->shape.type != SampleType_f32 ||
                 !same_dims(f->shape, G[i * (size_t)k].shape))
-                judge_fail("C10.wrong_shape",
+                JUDGE("C10.wrong_shape",
                             "%s: averaged frame is not f32 with the input's "
                             "dimensions",
                             where);
             if (f->frame_id != (uint64_t)i * (uint64_t)k)
-                judge_fail("C10.wrong_frame_id",
+                JUDGE("C10.wrong_frame_id",
                             "%s: frame id %llu, expected %llu (id of the "
                             "window's first frame)",
                             where, (unsigned long long)f->frame_id,
                             (unsigned long long)(i * (size_t)k));
-            check_mean_frame(f, camdev_index(c.camdev), a.id, G, i * (size_t)k,
-                             k, where, "C10");
+            if (check_mean_frame(f, camdev_index(c.camdev), a.id, G,
+                                 i * (size_t)k, k, where, "C10"))
+                return;
         }
         return;
     }
     // ---- plain: storage == camera, frame for frame
     if (F.size() > G.size()) {
         snprintf(id, sizeof(id), "%s.more_stored_than_delivered", P);
-        judge_fail(id,
+        JUDGE(id,
                     "acquisition %d stream %d: storage received %zu frames "
                     "but the camera delivered only %zu",
                     a.id, s, F.size(), G.size());
@@ -780,12 +819,12 @@ judge_stream(const AcqRec& a, int s)
         const struct VideoFrame* f = F[i];
         const FrameRec& g = G[i];
         if (f->frame_id != i)
-            judge_fail("C04.frame_id_sequence",
+            JUDGE("C04.frame_id_sequence",
                         "acquisition %d stream %d: %zu-th stored frame has "
                         "frame_id %llu (gap, repeat or reordering)",
                         a.id, s, i, (unsigned long long)f->frame_id);
         if (f->hardware_frame_id != g.hw || f->timestamps.hardware != g.ts)
-            judge_fail("C04.wrong_frame",
+            JUDGE("C04.wrong_frame",
                         "acquisition %d stream %d: stored frame %zu carries "
                         "hardware id %llu / timestamp %llx but the camera's "
                         "%zu-th delivered frame was id %llu / %llx (lost, "
@@ -795,7 +834,7 @@ judge_stream(const AcqRec& a, int s)
                         (unsigned long long)f->timestamps.hardware, i,
                         (unsigned long long)g.hw, (unsigned long long)g.ts);
         if (!same_dims(f->shape, g.shape) || f->shape.type != g.shape.type)
-            oracle_fail("C05.shape_differs_from_camera",
+            SOFT("C05.shape_differs_from_camera",
                         "acquisition %d stream %d: stored frame %zu has a "
                         "shape different from the one the camera reported for "
                         "it",
@@ -803,7 +842,7 @@ judge_stream(const AcqRec& a, int s)
         std::vector<uint8_t> want(g.nbytes);
         fill_pixels(want.data(), want.size(), g.camdev, g.acq, g.hw);
         if (memcmp(f->data, want.data(), want.size()) != 0)
-            judge_fail("C04.pixels_altered",
+            JUDGE("C04.pixels_altered",
                         "acquisition %d stream %d: pixel bytes of stored frame "
                         "%zu (hardware id %llu) differ from what the camera "
                         "delivered",
@@ -811,12 +850,12 @@ judge_stream(const AcqRec& a, int s)
     }
     if (clean) {
         if (G.size() != c.n)
-            judge_fail("C04.camera_frame_count",
+            JUDGE("C04.camera_frame_count",
                         "acquisition %d stream %d: camera delivered %zu frames "
                         "for max_frame_count=%llu",
                         a.id, s, G.size(), (unsigned long long)c.n);
         if (F.size() != c.n)
-            judge_fail("C04.frames_missing_at_storage",
+            JUDGE("C04.frames_missing_at_storage",
                         "acquisition %d stream %d: storage received %zu of the "
                         "%llu frames the camera delivered before "
                         "acquire_stop returned (ring %s)",
@@ -825,7 +864,7 @@ judge_stream(const AcqRec& a, int s)
     }
     // C09: a camera fault at call k means nothing with index >= k is stored
     if (c.cs.fail_frame >= 0 && (int64_t)F.size() > c.cs.fail_frame)
-        oracle_fail("C09.frames_after_camera_failure",
+        SOFT("C09.frames_after_camera_failure",
                     "acquisition %d stream %d: %zu frames stored although the "
                     "camera failed at frame call %lld",
                     a.id, s, F.size(), (long long)c.cs.fail_frame);
@@ -837,10 +876,16 @@ judge_after_end(AcqRec& a, const char* how)
     if (a.judged)
         return;
     a.judged = true;
-    // ---- C07: everything wound down
+    // ---- C07 (and, after a device fault, C09): everything wound down
+    const bool under_c09 = active_property() == "C09";
+    auto id_of = [&](const char* name) {
+        static std::string buf;
+        buf = std::string(under_c09 ? "C09." : "C07.") + name;
+        return buf.c_str();
+    };
     int live = live_created_threads();
     if (live != 0 && !W->real_devices)
-        oracle_fail("C07.workers_alive_after_return",
+        (void)soft_fail(id_of("workers_alive_after_return"),
                     "acquire_%s returned but %d runtime threads are still "
                     "alive: %s",
                     how, live, live_created_thread_names().c_str());
@@ -849,12 +894,12 @@ judge_after_end(AcqRec& a, const char* how)
         if (!c.valid)
             continue;
         if (c.camdev >= 0 && W->cam[camdev_index(c.camdev)].running)
-            oracle_fail("C07.camera_not_stopped",
+            (void)soft_fail(id_of("camera_not_stopped"),
                         "acquire_%s returned but camera #%d of stream %d is "
                         "still running (no driver stop after the last start)",
                         how, c.camdev, s);
         if (c.stodev >= 0 && W->sto[stodev_index(c.stodev)].running)
-            oracle_fail("C07.storage_not_stopped",
+            (void)soft_fail(id_of("storage_not_stopped"),
                         "acquire_%s returned but storage #%d of stream %d is "
                         "still running (no driver stop after the last start)",
                         how, c.stodev, s);
@@ -862,7 +907,7 @@ judge_after_end(AcqRec& a, const char* how)
     if (a.start_ok) {
         enum DeviceState st = acquire_get_state(W->rt);
         if (st != DeviceState_Armed)
-            oracle_fail("C07.state_not_armed",
+            (void)soft_fail(id_of("state_not_armed"),
                         "after acquire_%s returned acquire_get_state reports "
                         "%d, not Armed",
                         how, (int)st);
@@ -1017,8 +1062,8 @@ monitor_thread(int s, Op op, bool drainer = false)
                 size_t first = (size_t)f->frame_id;
                 if (first + (size_t)c.avg <= G.size() &&
                     f->shape.type == SampleType_f32)
-                    check_mean_frame(f, camdev_index(c.camdev), acq, G, first,
-                                     c.avg, "monitor", "C10");
+                    (void)check_mean_frame(f, camdev_index(c.camdev), acq, G,
+                                           first, c.avg, "monitor", "C10");
             } else {
                 const FrameRec* g =
                   find_frame(camdev_index(c.camdev), acq, f->hardware_frame_id);
@@ -1047,6 +1092,20 @@ monitor_thread(int s, Op op, bool drainer = false)
             snapshot.assign((uint8_t*)beg, (uint8_t*)end);
             probe("reach.monitor_holds_region");
             sleep_ns((uint64_t)hold * 1000);
+            // (a client that reads the packet at the end of the hold still
+            // finds whole, exactly chained frames; judged first under C05,
+            // last otherwise, so that neither property's oracle ends the run
+            // before the other's has looked)
+            auto rewalk = [&] {
+                char where2[80];
+                snprintf(where2, sizeof(where2),
+                         "monitor map on stream %d, re-read after the hold", s);
+                walk_packet((const uint8_t*)beg, nbytes, where2,
+                            [&](const struct VideoFrame*) {});
+            };
+            const bool c05_first = active_property() == "C05";
+            if (c05_first)
+                rewalk();
             // zero-copy consumers never see a frame change under them
             bool ended_meanwhile = false;
             for (auto& a : w->acqs)
@@ -1064,6 +1123,8 @@ monitor_thread(int s, Op op, bool drainer = false)
                             "monitor stream %d: the mapped region changed "
                             "while the client held it",
                             s);
+            if (!c05_first)
+                rewalk();
         }
         size_t consumed = nbytes;
         // a client that never releases anything stalls any ring for ever;
@@ -1292,7 +1353,8 @@ struct RtHarness : Harness
             for (int s = 0; s < nstreams; ++s) {
                 sc[s] = gen_stream(x, s,
                                    (avg_prof && g.chance(0.9)) ||
-                                     (abort_prof && g.chance(0.25)),
+                                     ((abort_prof || fault_prof) &&
+                                      g.chance(0.25)),
                                    faults && (s == 0 || g.chance(0.5)));
                 if ((abort_prof || prog_prof) && !last && g.chance(0.25))
                     sc[s].trig = 1;
